@@ -248,3 +248,56 @@ def check_history(ops, impl, ports):
         if sorted(got_m) != sorted(exp['matching']):
             return n, 'matching dispatcher invoked (responder, function) %s, the property demands %s (any path order)' % (got_m, sorted(exp['matching']))
     return None
+
+
+def check_registry(hist, impl):
+    """Reference for the callback registries written from the property text ("run exactly the actions
+    currently registered, in registration order"): plain ordered dicts.  -> None or (op index, text)."""
+    sa, sv, nc = {}, {}, {}
+    removes = {int(k): v for k, v in hist.get('removes', {}).items()}
+    key = lambda k: k if isinstance(k, str) else ('srv', k[1])
+    for n, (op, got) in enumerate(zip(hist['ops'], impl)):
+        k, exp = op[0], []
+        if k == 'sa_add':
+            sa[op[1]] = op[2]
+        elif k == 'sa_remove':
+            sa.pop(op[1], None)
+        elif k == 'sa_remove_all':
+            sa.clear()
+        elif k == 'sa_run':
+            for a in list(sa):
+                if a in sa:
+                    exp.append([a, sa[a]])
+                    for b in removes.get(a, []):
+                        sa.pop(b, None)
+        elif k == 'sv_add':
+            sv.setdefault(key(op[1]), {})[op[2]] = op[3]
+        elif k == 'sv_remove':
+            sv.get(key(op[1]), {}).pop(op[2], None)
+        elif k == 'sv_remove_server':
+            sv.pop(key(op[1]), None)
+        elif k == 'sv_run':
+            for kk in [('srv', op[1])] + (['default'] if op[1] == 0 else []) + ['all']:
+                exp += [[a, x] for a, x in sv.get(kk, {}).items()]
+        elif k == 'nc_register':
+            nc.setdefault(op[1], {}).setdefault(op[2], {})[op[3]] = op[4]
+        elif k == 'nc_unregister':
+            try:
+                del nc[op[1]][op[2]][op[3]]
+            except KeyError:
+                exp = [[0, 0]]
+        elif k == 'nc_unregister_msg':
+            try:
+                del nc[op[1]][op[2]]
+            except KeyError:
+                exp = [[0, 0]]
+        elif k == 'nc_unregister_obj':
+            try:
+                del nc[op[1]]
+            except KeyError:
+                exp = [[0, 0]]
+        elif k == 'nc_notify':
+            exp = [[l, a] for l, a in nc.get(op[1], {}).get(op[2], {}).items()]
+        if [list(x) for x in got] != exp:
+            return n, 'operation %s calls %s, the actions currently registered in registration order are %s' % (op, got, exp)
+    return None
